@@ -513,7 +513,7 @@ theorem zkpok_parts_unbound {cs : Suite} {π π' : ZKPoK} {C C' : Int} {Ctv Ctv'
 
 /-- `RangeComplete` follows from the C16 completeness theorem `Zk.ClRange.range_complete`. -/
 theorem rangeComplete (hA : ArithOK) (cs : Suite) : RangeComplete cs := by
-  intro x c g h n lo hi t t' π hn hg hh hx hr _ hC _ _ _ _ hp
+  intro x c g h n lo hi t t' π hn hg hh hx hr _ hC hc0 hcn _ _ hp
   obtain ⟨u, hu⟩ := Zk.ClRange.rep_of_gcd hn hg
   obtain ⟨v, hv⟩ := Zk.ClRange.rep_of_gcd hn hh
   have hc : Zk.ClRange.Rep n c.value (u ^ x * v ^ c.randomness) := by
@@ -528,7 +528,57 @@ theorem rangeComplete (hA : ArithOK) (cs : Suite) : RangeComplete cs := by
     unfold Zk.ClRange.Rep at *
     rw [← h1]
     exact (ZMod.intCast_eq_intCast_iff _ _ _).2 (by rw [Zk.ClRange.natCast_toNat hn]; exact hC)
-  exact (Zk.ClRange.range_complete hA cs hn hu hv hc hp []).1
+  exact (Zk.ClRange.range_complete hA cs hn hu hv hc ⟨hc0, hcn⟩ hp []).1
+
+/-! ### canonical representatives: issued and updated signatures carry the reduced `v` -/
+
+/-- Whatever `verify_multiattr` accepts has `0 < v < N` (the check added to the verifier). -/
+theorem accepted_v_reduced (hA : ArithOK) {cs : Suite} {σ : Signature} {pk : PublicKey}
+    {bases msgs : List Int} {t t' : List Draw}
+    (h : verifyMultiattr cs σ pk bases msgs t = .ok (true, t')) : 0 < σ.v ∧ σ.v < pk.N :=
+  (verifyMultiattr_true_elim hA h).2.2.2.1
+
+/-- **`blind_sign` outputs are reduced**: under the hypotheses of `issuance_complete`, every blind
+signature returned by the issuer has `0 < v < N` (it is a `pow_mod` result of a unit), and so has its
+unblinding (`unblind_sign` keeps `v`). -/
+theorem blindSign_v_reduced (hA : ArithOK) (cs : Suite) (pk : PublicKey)
+    (sk : SecretKey) (bases msgs : List Int) (U R : List Nat) (hk : KeysOK pk sk)
+    (hau : ∀ a ∈ bases, Int.gcd a pk.N = 1) (hlen : msgs.length ≤ bases.length)
+    (hm : ∀ m ∈ msgs, 0 ≤ m ∧ m < 2 ^ cs.lm)
+    (hperm : (U ++ R).Perm (List.range msgs.length)) (hU : msgs.length = 1 → U ≠ [])
+    (C : Commitment) (t₁ t₁' : List Draw)
+    (hcommit : commitWithPk cs msgs pk bases (some U) t₁ = .ok (C, t₁'))
+    (Ct : Option Commitment) (cpk : Option CommitmentPK)
+    (hT : ∀ ct k, Ct = some ct → cpk = some k → TrustedOK cs msgs U ct k)
+    (π : ZKPoK) (t₂ t₂' : List Draw)
+    (hgen : zkpokGen cs msgs C Ct pk bases cpk U t₂ = .ok (π, t₂'))
+    (t₃ : List Draw) (β : BlindSignature) (t₃' : List Draw)
+    (hβ : blindSign cs pk sk bases π (some (pick msgs R)) C (Ct.map Commitment.value) cpk U (some R) t₃
+      = .ok (β, t₃')) :
+    (0 < β.v ∧ β.v < pk.N) ∧ (unblindSign β C).v = β.v :=
+  ⟨accepted_v_reduced hA ((issuance_complete hA cs (rangeComplete hA cs) pk sk bases msgs U R hk hau hlen
+    hm hperm hU C t₁ t₁' hcommit Ct cpk hT π t₂ t₂' hgen).2.2 t₃ β t₃' hβ), rfl⟩
+
+/-- **`update_signature` outputs are reduced**: under the hypotheses of `update_complete`, whatever
+`update_signature` returns has `0 < v < N`. -/
+theorem updateSignature_v_reduced (hA : ArithOK) (cs : Suite) (pk : PublicKey) (sk : SecretKey)
+    (bases msgs' : List Int) (U R : List Nat) (hk : KeysOK pk sk)
+    (hau : ∀ a ∈ bases, Int.gcd a pk.N = 1) (hlen : msgs'.length ≤ bases.length)
+    (hm : ∀ m ∈ msgs', 0 ≤ m ∧ m < 2 ^ cs.lm)
+    (hperm : (U ++ R).Perm (List.range msgs'.length))
+    (C : Commitment) (hr0 : 0 ≤ C.randomness)
+    (hC : C.value ≡ rep bases msgs' U * pk.b ^ C.randomness.toNat [ZMOD pk.N])
+    (β : BlindSignature) (he : 2 ^ (cs.le - 1) < β.e ∧ β.e < 2 ^ cs.le)
+    (hg : Int.gcd β.e ((sk.p - 1) * (sk.q - 1)) = 1) (hrp : 0 ≤ β.rprime) (t t' : List Draw)
+    (β' : BlindSignature)
+    (hβ' : updateSignature β (some (pick msgs' R)) C sk pk bases (some R) t = .ok (β', t')) :
+    0 < β'.v ∧ β'.v < pk.N := by
+  obtain ⟨β'', h1, -, -, h2⟩ := update_complete hA cs pk sk bases msgs' U R hk hau hlen hm hperm C hr0 hC β
+    he hg hrp t
+  rw [h1] at hβ'
+  simp only [CRes.ok.injEq, Prod.mk.injEq] at hβ'
+  obtain ⟨rfl, -⟩ := hβ'
+  exact accepted_v_reduced hA h2
 
 /-- **Blind issuance is complete for every hidden set** — `issuance_complete` with the range-proof
 hypothesis discharged: it only assumes `ArithOK`. -/
